@@ -77,3 +77,128 @@ pub fn facts_labels(f: &Facts) -> Vec<&'static str> {
 pub fn chars(s: &str) -> Vec<char> {
     s.chars().collect()
 }
+
+/// A fully concrete case: strings only.
+#[derive(Clone, Debug, PartialEq, Eq, Hash, Serialize, Deserialize)]
+pub struct StrCase {
+    pub dialect: Dialect,
+    pub pattern: String,
+    pub flags: String,
+    pub inputs: Vec<String>,
+    pub replacements: Vec<String>,
+    /// free-form tag naming the generator part (informational)
+    #[serde(default)]
+    pub tag: String,
+}
+
+impl StrCase {
+    pub fn job(&self) -> Job {
+        let mut j = Job::new(self.dialect, &self.pattern, &self.flags);
+        j.inputs = self.inputs.clone();
+        j.replacements = self.replacements.clone();
+        j
+    }
+    pub fn describe(&self) -> Value {
+        json!({"dialect": format!("{:?}", self.dialect), "pattern": self.pattern, "flags": self.flags, "inputs": self.inputs, "replacements": self.replacements, "tag": self.tag})
+    }
+}
+
+/// spans (in chars) of the matches reported by analyze, plus total length covered
+pub fn analyze_spans(entries: &[AEntry]) -> Vec<(usize, usize)> {
+    fn mlen(v: &[MEntry]) -> usize {
+        v.iter()
+            .map(|e| match e {
+                MEntry::S(s) => s.chars().count(),
+                MEntry::G(_, v) => mlen(v),
+            })
+            .sum()
+    }
+    let mut pos = 0;
+    let mut out = vec![];
+    for e in entries {
+        match e {
+            AEntry::NonMatch(s) => pos += s.chars().count(),
+            AEntry::Match(v) => {
+                let l = mlen(v);
+                out.push((pos, pos + l));
+                pos += l;
+            }
+        }
+    }
+    out
+}
+
+pub fn mentry_text(v: &[MEntry]) -> String {
+    let mut s = String::new();
+    fn go(v: &[MEntry], s: &mut String) {
+        for e in v {
+            match e {
+                MEntry::S(t) => s.push_str(t),
+                MEntry::G(_, v) => go(v, s),
+            }
+        }
+    }
+    go(v, &mut s);
+    s
+}
+
+pub fn analyze_text(entries: &[AEntry]) -> String {
+    let mut s = String::new();
+    for e in entries {
+        match e {
+            AEntry::NonMatch(t) => s.push_str(t),
+            AEntry::Match(v) => s.push_str(&mentry_text(v)),
+        }
+    }
+    s
+}
+
+/// spans from replace_all(s, "\u{1}$0\u{2}") — the markers must not occur in the input
+pub fn marker_spans(replaced: &str) -> Option<Vec<(usize, usize)>> {
+    let mut out = vec![];
+    let mut pos = 0usize;
+    let mut open: Option<usize> = None;
+    for c in replaced.chars() {
+        match c {
+            '\u{1}' => {
+                if open.is_some() {
+                    return None;
+                }
+                open = Some(pos);
+            }
+            '\u{2}' => {
+                let s = open.take()?;
+                out.push((s, pos));
+            }
+            _ => pos += 1,
+        }
+    }
+    if open.is_some() {
+        return None;
+    }
+    Some(out)
+}
+
+/// limit the nesting depth of unbounded/large repeats (deeper ones are replaced by their body)
+pub fn limit_rep_nesting(n: &Node, depth_left: u32) -> Node {
+    match n {
+        Node::Rep { body, min, max, greedy, brace } => {
+            if depth_left == 0 {
+                limit_rep_nesting(body, 0)
+            } else {
+                Node::Rep { body: Box::new(limit_rep_nesting(body, depth_left - 1)), min: *min, max: *max, greedy: *greedy, brace: *brace }
+            }
+        }
+        Node::Group(k, b) => Node::Group(*k, Box::new(limit_rep_nesting(b, depth_left))),
+        Node::Alt(v) => Node::Alt(v.iter().map(|c| limit_rep_nesting(c, depth_left)).collect()),
+        Node::Cat(v) => Node::Cat(v.iter().map(|c| limit_rep_nesting(c, depth_left)).collect()),
+        other => other.clone(),
+    }
+}
+
+pub fn rep_nesting(n: &Node) -> u32 {
+    match n {
+        Node::Rep { body, .. } => 1 + rep_nesting(body),
+        _ => n.children().iter().map(|c| rep_nesting(c)).max().unwrap_or(0),
+    }
+}
